@@ -5,7 +5,7 @@ import copy
 import numpy as np
 
 from sa.program import src, own_nodes, call_name, parent, kwarg, AnchorMissing
-from sa import guards, constfold
+from sa import guards, constfold, resolve
 
 EXPLANATION = (
     "Static rules over pyiga/solvers.py: (R12.1) every shipped coefficient table is obtained by constant folding of its defining "
@@ -337,8 +337,14 @@ def r12_4(ctx):
     ctx.floor('R12.4', 'returns of newton', len(rets), 1)
     for r in rets:
         facts = guards.path_conditions(r)
-        tests = [t.replace(' ', '') for (t, pol, _n) in facts if pol]
-        ok = any(t in ('np.linalg.norm(res)<target', 'np.linalg.norm(res)<=target', 'scipy.linalg.norm(res)<target') for t in tests)
+        tests = [t.replace(' ', '') for (t, pol, _n) in facts if pol][:2]
+        # semantic form of the test: <norm of the current residual> < / <= <tolerance>, read through local temporaries
+        ok = False
+        for (_t, pol, n) in facts:
+            if pol and isinstance(n, ast.Compare) and len(n.ops) == 1 and isinstance(n.ops[0], (ast.Lt, ast.LtE)):
+                left = src(resolve.expand(n.left, n, keep=('res', 'x'))).replace(' ', '')
+                if left in ('np.linalg.norm(res)', 'scipy.linalg.norm(res)', 'numpy.linalg.norm(res)', 'norm(res)'):
+                    ok = True
         ctx.decide('R12.4', fi.qual, src(r) + ' under ' + (' and '.join(tests) or 'no test'), ok, r,
                    'a point is returned only if its residual meets the tolerance')
         # the tested residual belongs to the returned x: res = F(x) is the last statement that touched res, after the last update of x
@@ -355,7 +361,7 @@ def r12_4(ctx):
     ok = not guards.falls_off_end(fn) and isinstance(fn.body[-1], ast.Raise)
     ctx.decide('R12.4', fi.qual, 'falls through to ' + src(fn.body[-1]), ok, fn.body[-1], 'every other exit raises NoConvergenceError')
     tg = [s for s in own_nodes(fn) if isinstance(s, ast.Assign) and src(s.targets[0]) == 'target']
-    ok = bool(tg) and src(tg[0].value).replace(' ', '') == 'max(atol,rtol*np.linalg.norm(res))'
+    ok = bool(tg) and src(resolve.expand(tg[0].value, tg[0], keep=('res', 'x'))).replace(' ', '') == 'max(atol,rtol*np.linalg.norm(res))'
     ctx.decide('R12.4', fi.qual, src(tg[0]) if tg else 'target', ok or None, tg[0] if tg else fn, 'tolerance from atol and the initial residual')
     cp = [s for s in own_nodes(fn) if isinstance(s, ast.Assign) and src(s.targets[0]) == 'x']
     ok = bool(cp) and call_name(cp[0].value) in ('np.array', 'np.copy') or (bool(cp) and src(cp[0].value).endswith('.copy()'))
